@@ -13,6 +13,7 @@ import (
 	"sort"
 	"strings"
 	"sync"
+	"sync/atomic"
 	"time"
 
 	gortsplib "github.com/bluenviron/gortsplib/v5"
@@ -203,10 +204,28 @@ var ipText = []string{"127.0.0.1", "127.0.0.2"}
 
 const respWait = 15 * time.Second
 
+// slowFails counts failures that cost a full respWait; after a few of them the remaining cases are
+// skipped (the run is a failure anyway and must not take hours)
+var slowFails atomic.Int32
+
+func slow(class string) bool {
+	switch class {
+	case "hang", "teardown-not-ended", "session-not-ended", "session-never-closed", "conn-close-hang", "conn-not-detached", "conn-open-hang":
+		return true
+	}
+	return false
+}
+
 // runCase executes the requests on a fresh set of connections of the worker's server.
 func runCase(c *core, cs caseSpec) (res caseResult) {
 	fail := func(class, f string, a ...any) {
 		res.fails = append(res.fails, failure{class, fmt.Sprintf(f, a...)})
+		if slow(class) {
+			slowFails.Add(1)
+		}
+	}
+	if slowFails.Load() > 6 {
+		return
 	}
 	c.mu.Lock()
 	c.sessions = nil
@@ -452,9 +471,11 @@ func runCase(c *core, cs caseSpec) (res caseResult) {
 			if r.meth == mTeardown && rr != nil && rr.status == 200 && o.target == k {
 				continue
 			}
+			// a connection (other than the one this request came on) that was attached and open just
+			// before: the session did not lose its last connection, it closed it
 			anyOpen := false
 			for ci := range attached[k] {
-				if o.open[ci] {
+				if ci != r.conn && (last == nil || last.open[ci]) {
 					anyOpen = true
 				}
 			}
